@@ -17,6 +17,7 @@ MODULE_DEPS = {
     "transform": ["path"],
     "config": [],
     "semaphore": [],
+    "group": ["path"],
 }
 
 
@@ -57,6 +58,17 @@ k("c18_execute_move_copy_existing", "dedupe::FsCommand::execute [Move, copy, tar
 k("c06_rf_over_contract", "config::GroupConfig::rf_over [function contract]", module="config", t=300, contract_ob="C06.rf_over.contract")
 k("c06_rf_under_contract", "config::GroupConfig::rf_under [function contract]", module="config", t=300, contract_ob="C06.rf_under.contract")
 k("c06_group_filter", "config::GroupConfig::group_filter (against the contract of rf_over)", module="config", t=300)
+# ---- group.rs
+k("c06_subgroup_count_match_links_bounded", "group::FileGroup::subgroup_count + FileSubGroup::group [--match-links]", module="group", t=1200,
+  cls="bounded", bound="<= 3 files, 2 isolated roots, every placement of the files under/outside the roots")
+k("c06_subgroup_count_by_id_bounded", "group::FileGroup::subgroup_count + FileSubGroup::group [hard links count once]", module="group", t=1800,
+  cls="bounded", bound="<= 3 files, 2 isolated roots, file ids from {1,2,3}", tier="thorough")
+# ---- semaphore.rs
+k("c19_release", "semaphore::Semaphore::release", module="semaphore", t=300)
+k("c19_guard_roundtrip", "semaphore::Semaphore::access + Drop for SemaphoreGuard", module="semaphore", t=300)
+k("c19_owned_guard_roundtrip", "semaphore::Semaphore::access_owned + Drop for OwnedSemaphoreGuard", module="semaphore", t=300)
+k("c19_acquire_after_wakeups_bounded", "semaphore::Semaphore::acquire (stubbed Condvar::wait)", module="semaphore", t=300,
+  cls="bounded", bound="at most 2 wake-ups of Condvar::wait (the unbounded loop is the Verus unit `semaphore`)")
 # ---- transform.rs
 k("c07_transform_frame", "transform::Transform::make_args + Input::prepare_input_file + Drop for Input/Output/Transform", module="transform", t=1500)
 # ---- hasher.rs
@@ -64,6 +76,22 @@ for _o in ("ok", "notfound", "denied", "other"):
     k("c15_hash_file_" + _o, "hasher::FileHasher::hash_file_or_log_err", module="hasher", t=300)
     k("c15_hash_transformed_" + _o, "hasher::FileHasher::hash_transformed_or_log_err", module="hasher", t=300)
 k("c12_hasher_flow", "hasher::FileHasher::hash_file + load_hash + store_hash + cache::HashCache::key", module="hasher", t=900)
+
+for _w in ("remove", "unsafe_rename", "hardlink", "symlink", "unsafe_copy", "mkdirs", "check_can_rename"):
+    k("wrapper_" + _w, "dedupe::FsCommand::%s [body refines its contract over std::fs]" % _w, t=600)
+WRAPPERS = ["wrapper_" + _w for _w in ("remove", "unsafe_rename", "hardlink", "symlink", "unsafe_copy", "mkdirs", "check_can_rename")]
+# thorough tier: the same units with the real wrapper bodies inlined (ghost file system at the std::fs level only)
+for _h, _f in (("c05_safe_remove_std", "safe_remove"), ("c05_execute_remove_std", "execute [Remove]"),
+               ("c05_execute_hardlink_std", "execute [HardLink]"), ("c05_execute_softlink_std", "execute [SoftLink]"),
+               ("c05_linux_reflink_std", "linux_reflink"), ("c05_execute_reflink_std", "execute [RefLink]"),
+               ("c18_execute_move_rename_std", "execute [Move, rename]"), ("c18_execute_move_copy_std", "execute [Move, copy]"),
+               ("c18_execute_move_rename_existing_std", "execute [Move, rename, target exists]"),
+               ("c18_execute_move_copy_existing_std", "execute [Move, copy, target exists]")):
+    k(_h, "dedupe::FsCommand::%s with the real wrapper bodies (std::fs-level ghost file system)" % _f, tier="thorough", t=2400)
+STD_C05 = ["c05_safe_remove_std", "c05_execute_remove_std", "c05_execute_hardlink_std", "c05_execute_softlink_std",
+           "c05_linux_reflink_std", "c05_execute_reflink_std"]
+STD_C18 = ["c18_execute_move_rename_std", "c18_execute_move_copy_std", "c18_execute_move_rename_existing_std",
+           "c18_execute_move_copy_existing_std"]
 
 C05_FAMILY = ["c05_safe_remove", "c05_execute_remove", "c05_execute_hardlink", "c05_execute_softlink",
               "c05_linux_reflink", "c05_execute_reflink"]
@@ -86,7 +114,7 @@ GHOST_FS_TRUST = [
 
 PROPS = {
     "C05": dict(
-        kani=C05_FAMILY + C18_FAMILY,
+        kani=C05_FAMILY + C18_FAMILY + WRAPPERS + STD_C05 + STD_C18,
         verus=[],
         prefixes=["C05.", "C02.execute_frame."],
         category="proof",
@@ -102,7 +130,7 @@ PROPS = {
         design_ref="DESIGN.md §5 C20",
     ),
     "C18": dict(
-        kani=C18_FAMILY,
+        kani=C18_FAMILY + ["wrapper_check_can_rename", "wrapper_unsafe_copy", "wrapper_unsafe_rename", "wrapper_remove", "wrapper_mkdirs"] + STD_C18,
         verus=[],
         prefixes=["C18.", "C05.", "C02.execute_frame."],
         category="proof",
@@ -110,9 +138,9 @@ PROPS = {
         design_ref="DESIGN.md §5 C18",
     ),
     "C02": dict(
-        kani=C05_FAMILY + C18_FAMILY,
+        kani=C05_FAMILY + C18_FAMILY + WRAPPERS + STD_C05 + STD_C18,
         verus=["partition_tail"],
-        prefixes=["C02."],
+        prefixes=["C02.", "C05.wrapper."],
         category="proof",
         trust=GHOST_FS_TRUST,
         design_ref="DESIGN.md §5 C02",
@@ -178,7 +206,7 @@ PROPS = {
         design_ref="DESIGN.md §5 C14",
     ),
     "C19": dict(
-        kani=[],
+        kani=["c19_release", "c19_guard_roundtrip", "c19_owned_guard_roundtrip", "c19_acquire_after_wakeups_bounded"],
         verus=["semaphore"],
         prefixes=["C19."],
         category="proof",
